@@ -45,6 +45,7 @@ from workflows.runtime.types.plugin import (
 from workflows.runtime.types.ticks import (
     TickIdleRelease,
     WorkflowTick,
+    WorkflowTickAdapter,
 )
 from workflows.workflow import Workflow
 
@@ -378,6 +379,16 @@ class DBOSIdleReleaseDecorator(BaseRuntimeDecorator):
                 logger.debug(
                     f"Journal already purged for run_id={run_id}", exc_info=True
                 )
+
+        # The resumed control loop starts with pending_tick already folded into
+        # its state, so the tick never passes through on_tick and would never be
+        # persisted. Append it to the tick log here: otherwise the log holds the
+        # step_result it leads to without its add_event, and the next rebuild
+        # from the log (second release/resume, restart) fails.
+        if pending_tick is not None:
+            await self._store.append_tick(
+                run_id, WorkflowTickAdapter.dump_python(pending_tick, mode="json")
+            )
 
         # Start new workflow run with the same run_id.
         new_adapter = self._decorated.run_workflow(
